@@ -74,7 +74,7 @@ def observe(job):
         lock.release()
     text = job["counter"].read_text() if job["counter"].is_file() else ""
     return dict(done=job["done"].is_file(), failed=failed, failed_raw=raw, pid=job["pid"].is_file(),
-                lockfree=lockfree, B=text.count("B"), E=text.count("E"), X=text.count("X"))
+                lockfree=lockfree, B=text.count("B"), E=text.count("E"), X=text.count("X"), F=text.count("F"))
 
 
 def start(job, evlog, mode, sig, n, env, j2=None, hold=None):
@@ -111,7 +111,7 @@ def wait(process, limit=90):
 def read_log(evlog):
     """-> effects before the (first) signal, after it, executed lines, the signal record, the second death,
     the number of lines executed when the lock was taken"""
-    pre, post, lines, kill, kill2, lock_n, body_n, pre_n = [], [], [], None, None, None, None, []
+    pre, post, lines, kill, kill2, lock_n, body_n, pre_n, child = [], [], [], None, None, None, None, [], []
     for line in (evlog.read_text().splitlines() if evlog.exists() else []):
         tag, _, rest = line.partition(" ")
         if tag == "L":
@@ -123,6 +123,8 @@ def read_log(evlog):
                 kill = rec
             else:
                 kill2 = rec
+        elif tag == "CE":
+            child.append(rest)
         elif tag == "E":
             (post if kill else pre).append(rest)
             if not kill:
@@ -131,15 +133,15 @@ def read_log(evlog):
                 lock_n = len(lines)
             if rest == "BodyBegin" and body_n is None:
                 body_n = len(lines)
-    return pre, post, lines, kill, kill2, lock_n, body_n, pre_n
+    return pre, post, lines, kill, kill2, lock_n, body_n, pre_n, child
 
 
 def record(job, evlog, l, rc, hung):
-    pre, post, lines, kill, kill2, lock_n, body_n, pre_n = read_log(evlog)
+    pre, post, lines, kill, kill2, lock_n, body_n, pre_n, child = read_log(evlog)
     out = dict(mode=l["mode"], sig=l.get("sig"), n=l.get("n") or 0, fired=kill is not None,
                ctx=kill["ctx"] if kill else None, at=kill["at"] if kill else None,
                killed_again=kill2 is not None, at2=kill2["at"] if kill2 else None,
-               pre=pre, post=post, rc=rc, nlines=len(lines), hung=hung or rc == 97)
+               pre=pre, post=post, child=child, rc=rc, nlines=len(lines), hung=hung or rc == 97)
     if l.get("ref"):
         out["lines"] = lines
         out["lock_n"] = lock_n   # number of executed lines when the lock was taken (the last one calls lock.acquire)
